@@ -177,6 +177,13 @@ func EnrichWorkload(r *Rand, w *Workload, scratch string) {
 		for _, l := range w.Languages {
 			w.Files["tpl/repo/"+l.Name+"/README-"+l.Name+".md"] = "repo file for "+l.Name+"\n{{ range $k, $v := .Extra }}{{ $k }}={{ $v }} {{ end }}\n"
 		}
+		if sr := r.Side("repo-shared-file"); sr.Chance(1, 3) && len(w.Languages) > 1 {
+			// the same relative path under several language directories
+			for _, l := range w.Languages {
+				w.Files["tpl/repo/"+l.Name+"/SHARED.md"] = "shared file as seen by " + l.Name + "\n"
+			}
+			notes = append(notes, "repo-shared-file")
+		}
 		notes = append(notes, "repo-templates")
 	}
 	for li := range w.Languages {
